@@ -141,3 +141,14 @@ func oracleC18(c SnapCase) (o report.Outcome) {
 }
 
 func TestC18(t *testing.T) { report.Run(t, specC18, genC18, oracleC18) }
+
+// C18Far / C01Far: the far-case generator (deepest tile matrices of the built-in sets, shapes that depend on hole matching and ring
+// areas, collapse-prone templates) under the oracles of C18 and C01.
+var specC18Far = report.Spec{Property: "C18", Check: "C18Far",
+	Rule: "pinched, nested and annulus shapes and (half of the cases) the collapse-prone templates of C18 on NetherlandsRDNewQuad, WebMercatorQuad, EuropeanETRS89_LAEAQuad, UPSArcticWGS84Quad and NZTM2000Quad at their four deepest addressable tile matrices (pixels of 2 to 50 mm at ordinates of 1e5..2e7), " +
+		"placed anywhere incl. the strip behind the last addressable pixel; oracle, scope and non-trivial rule of C18.",
+	Assumptions: specC01.Assumptions}
+
+func TestC18Far(t *testing.T) {
+	report.Run(t, specC18Far, func(t *rapid.T) SnapCase { return drawFarCase(t, true) }, oracleC18)
+}
